@@ -1,5 +1,5 @@
-\* exhaustive + emission (quick): averaged cores of height 5, minimum sizes 2 and 3 half units
-CONSTANTS HC = 5  Mins = {2, 3}  Families = {"avg"}
+\* exhaustive + emission (thorough): planes on one or both sides of the fuel, height 8, minimum sizes 3 and 5 half units
+CONSTANTS HC = 8  Mins = {3, 5}  Families = {"planes", "planes2"}
 INIT Init
 NEXT Next
 INVARIANT AtMostTwoRows
